@@ -137,6 +137,19 @@ def programs(tier):
                 if tag.startswith("key-") and tag not in ("key-groupby",):
                     continue
                 progs.append(Program(text, [srcA], ordered=ordered and node.ordered, family="F04", note="array/" + "/".join(node.ops) + "/" + tag, env_globals={"dx": dx}))
+        # parquet datasets (fsspec and arrow readers): the selection becomes the reader's column list, multi-file fused reads included
+        for how in ("parquet", "parquet-arrow"):
+            PCOLS = {"d": "i", "a": "i", "c": "i", "b": "f"}
+            Pq = root("A", PCOLS, nparts + 1)
+            srcP = Src("A", nrows + 1, PCOLS, nparts + 1, how=how)
+            for node in [Pq] + [n for n in chains(Pq, 1, ops=["assign", "arith", "elem", "rename", "project"]) if n.kind == "frame"]:
+                for text, tag, ordered in _selections(node):
+                    if tag.startswith("key-") and tag not in ("key-groupby", "key-shuffle"):
+                        continue
+                    progs.append(Program(text, [srcP], ordered=ordered and node.ordered, family="F04", note=f"{how}/" + "/".join(node.ops) + "/" + tag, env_globals={"dx": dx}))
+            for text in ("A[['c', 'a']].partitions[[1]]", "A.partitions[[2, 0]][['b']]", "(A + 1).partitions[[1, 2]].d.sum()", "A.index.size + A.a.sum()", "len(A[['a']]) + A.c.sum()", "A[['b', 'a']].head(3, npartitions=2, compute=False)",
+                         "A[['a']].tail(2, compute=False)", "dx.concat([A[['a']], A[['c', 'a']]])", "A[['a', 'c']].merge(A[['a', 'd']], on='a')"):
+                progs.append(Program(text, [srcP], ordered="merge" not in text, check_index="merge" not in text, family="F04", note=f"{how}/selection-shapes", env_globals={"dx": dx}))
         # diamonds: one intermediate, consumers with different column needs
         for mid in [L] + [m for nme in ("filter", "assign", "elem", "rename") for m in (FRAME_OPS[nme](L) or [])][:10]:
             nm = mid.names
